@@ -171,7 +171,8 @@ lyd_val_diff_add(const struct lyd_node *node, enum lyd_diff_op op, struct lyd_no
 
     assert((op == LYD_DIFF_OP_DELETE) || (op == LYD_DIFF_OP_CREATE));
 
-    if ((op == LYD_DIFF_OP_CREATE) && lysc_is_userordered(node->schema)) {
+    if (lysc_is_userordered(node->schema)) {
+        /* create needs the anchor (key/value/position), delete the original one (orig-key/orig-value/orig-position) */
         if (lysc_is_dup_inst_list(node->schema)) {
             pos = lyd_list_pos(node);
 
@@ -216,7 +217,12 @@ lyd_val_diff_add(const struct lyd_node *node, enum lyd_diff_op op, struct lyd_no
     }
 
     /* create new diff tree */
-    LY_CHECK_GOTO(ret = lyd_diff_add(node, op, NULL, NULL, key, value, position, NULL, NULL, &new_diff), cleanup);
+    if (op == LYD_DIFF_OP_CREATE) {
+        ret = lyd_diff_add(node, op, NULL, NULL, key, value, position, NULL, NULL, &new_diff);
+    } else {
+        ret = lyd_diff_add(node, op, NULL, value, NULL, NULL, NULL, key, position, &new_diff);
+    }
+    LY_CHECK_GOTO(ret, cleanup);
 
     /* merge into existing diff */
     ret = lyd_diff_merge_all(diff, new_diff, 0);
